@@ -152,7 +152,7 @@ pub fn record_c11(rng: &mut Rng, count: u64, out: &mut Out) {
       }
       _ => {
         // out-of-range cell numbers and latitudes are rejected
-        let bad_h = nh + rng.below(100);
+        let bad_h = bad_cell_number(rng, nh, n * n);
         let lat = *rng.pick(&[nudge(HALF_PI, 1), nudge(-HALF_PI, -1), 2.0, -1.6, f64::NAN]);
         let p1 = guarded(|| ring::center(nside, bad_h)).is_none();
         let p2 = guarded(|| ring::vertices(nside, bad_h)).is_none();
